@@ -40,9 +40,27 @@ constexpr std::array<u64, sizeof...(P)> masks(L<P...>)
     return {VMASK<typename PI<P>::V>...};
 }
 
+template <class... P>
+static void assume_no_nan(const ME& e, L<P...>)
+{
+    using Cmp = bool (*)(u64, u64);
+    const Cmp cmp[LT::N] = {&code_eq<typename PI<P>::V>...};
+    for (usize j = 0; j < LT::N; ++j)
+    {
+        for (usize t = 0; t < (SMAX ? SMAX : 1); ++t)
+        {
+            if (t < e.len[j])
+            {
+                verif_assume(cmp[j](e.val[j][t], e.val[j][t]));  // x == x: excludes NaN (== is not reflexive for NaN by IEEE)
+            }
+        }
+    }
+}
+
 static ME draw(const M& m)
 {
     ME e = draw_elem<LT>(m, SMAX);
+    assume_no_nan(e, LT{});
     if (DOMAIN > 0)
     {
         for (usize j = 0; j < LT::N; ++j)
@@ -125,8 +143,11 @@ static Vec rebuild(const M& m, int id)
     return v;
 }
 
-static bool m_eq(const ME& a, const ME& b)
+template <class... P>
+static bool m_eq_impl(const ME& a, const ME& b, L<P...>)
 {
+    using Cmp = bool (*)(u64, u64);
+    const Cmp cmp[LT::N] = {&code_eq<typename PI<P>::V>...};
     bool eq = true;
     for (usize j = 0; j < LT::N; ++j)
     {
@@ -138,11 +159,15 @@ static bool m_eq(const ME& a, const ME& b)
         {
             if (t < a.len[j])
             {
-                eq = eq && a.val[j][t] == b.val[j][t];
+                eq = eq && cmp[j](a.val[j][t], b.val[j][t]);
             }
         }
     }
     return eq;
+}
+static bool m_eq(const ME& a, const ME& b)
+{
+    return m_eq_impl(a, b, LT{});
 }
 static bool m_eq(const M& a, const M& b)
 {
